@@ -801,6 +801,45 @@ pub fn c10_cases(rng: &mut Rng, tier: &str) -> (Vec<Case>, bool) {
         }
         cases.push(case_from(w, vec![format!("transcript-eq {}-{} {}-{}", ranges[0].0, ranges[0].1, ranges[1].0, ranges[1].1), "err-then-idle".into()], "run-after-a-run-that-hit-a-cap".into(), true, prog.join(" | ")));
     }
+    // a long history of FAILED lines of every kind (each failure repeated 1..40 times), then RUN: as in a fresh interpreter -
+    // no failure leaves anything behind that counts against a later run
+    let failing: &[&str] = &["PRINT FNA(1/0)", "PRINT FNA(\"X\")", "PRINT FNA(1,2)", "PRINT FNA(1", "PRINT FNA()", "PRINT FNB(FNA(1/0))", "X = 1/0", "GOSUB 99999", "NEXT", "RETURN", "DIM Z9(-1)",
+        "PRINT \"a\" + 1", "FOR = 1", "PRINT ((((1)", "GOTO", "DEF", "PRINT P(50)", "PRINT ABS(", "PRINT RND(\"s\")", "READ Q9$, Q8", "IF 1 THEN PRINT 1/0", "PRINT 1 +", "PRINT FNC(1)"];
+    let prog_text = ["10 DEF FNA(X) = X + 1", "20 DEF FNB(Y) = FNA(Y) * 2", "30 DEF FNC(Z) = FNB(Z) + FNA(Z) + 1 / (Z - 1)", "40 DIM P(5) : FOR I = 1 TO 3 : GOSUB 100 : NEXT I", "50 PRINT FNB(FNA(FNB(2))); FNC(3)", "60 READ D : PRINT D",
+        "70 DATA 5", "80 END", "100 P(I) = FNB(I) : PRINT P(I); : RETURN"];
+    for reps in [1usize, 15, 16, 17, 40] {
+        let picks: Vec<&str> = if reps == 40 { failing.to_vec() } else { (0..8).map(|_| rng.pick(failing)).collect() };
+        let mut w = Walk::new(false, false);
+        for l in prog_text.iter() {
+            w.start(l);
+        }
+        w.start("RUN");
+        let mut nr = 0;
+        w.drive(&[], &mut nr, 60, false);
+        w.op("take");
+        for f in &picks {
+            for _ in 0..reps {
+                w.start(f);
+                w.drive(&[], &mut nr, 10, false);
+            }
+        }
+        w.op("take");
+        let a = w.ops.len();
+        w.start("RUN");
+        w.drive(&[], &mut nr, 60, false);
+        w.state();
+        let a2 = w.last();
+        w.op("new 0 0");
+        for l in prog_text.iter() {
+            w.start(l);
+        }
+        let b = w.ops.len();
+        w.start("RUN");
+        w.drive(&[], &mut nr, 60, false);
+        w.state();
+        let b2 = w.last();
+        cases.push(case_from(w, vec![format!("transcript-eq {}-{} {}-{}", a, a2, b, b2), "err-then-idle".into()], "many-failures-then-run".into(), true, format!("{} x each of {}", reps, picks.join(" | "))));
+    }
     // what an earlier run stored - however large - does not count against the next run
     for (first, second) in [(40_000usize, 40_000usize), (70_000, 10), (10, 70_000), (33_000, 33_000)] {
         let mut w = Walk::new(false, false);
@@ -1106,7 +1145,12 @@ pub fn c11_cases(rng: &mut Rng, tier: &str) -> (Vec<Case>, bool) {
         p.lines.sort_by_key(|l| l.0);
         let replies = reply_pool(rng);
         let mut w = Walk::new(false, false);
-        w.load(&p);
+        // one program in four arrives as a FILE (static analysis, then `into_interpreter`): edits invalidate all the same
+        if rng.chance(1, 4) {
+            w.load_file(&p);
+        } else {
+            w.load(&p);
+        }
         w.start("RUN");
         // suspend: either at the STOP (breakpoint), or by a host break after k steps, or awaiting input
         let k = rng.range(0, 25);
@@ -1447,6 +1491,9 @@ pub fn c17_cases(rng: &mut Rng, tier: &str) -> (Vec<Case>, bool) {
         (&["10 READ B(1), B(2)", "20 DATA x, 2"][..], &[][..], 0),
         (&["10 READ B(1), B(2)", "20 DATA 1, 2"][..], &[][..], 1),
         (&["10 X = Y + Z(1) + Z(2)", "20 PRINT X; Y"][..], &[][..], 3),
+        (&["10 DIM X", "20 PRINT X"][..], &[][..], 1),
+        (&["10 DIM N$", "20 PRINT N$; N$", "30 N$ = \"a\"", "40 PRINT N$"][..], &[][..], 2),
+        (&["10 DIM Y(2) : DIM X", "20 PRINT X + Y(1)"][..], &[][..], 1),
     ] {
         let mut w = Walk::new(true, false);
         for l in prog.iter() {
@@ -1565,6 +1612,9 @@ pub fn c09_cases(rng: &mut Rng, tier: &str) -> (Vec<Case>, bool) {
         (&["10 PRINT \"A\"::PRINT \"B\":PRINT \"C\""], &["RUN"], 6),
         (&["10 :::PRINT \"X\"::::", "20 PRINT \"Y\""], &["RUN"], 9),
         (&["10 IF 1 THEN ::PRINT \"Z\"", "20 ::"], &["RUN"], 5),
+        (&["10 IF 1 THEN", "20 PRINT \"A\"", "30 PRINT \"B\""], &["RUN"], 3),
+        (&["10 IF 0 THEN PRINT 1 ELSE", "20 PRINT \"A\"", "30 PRINT \"B\""], &["RUN"], 3),
+        (&["10 IF 1 THEN", "20 IF 1 THEN", "30 IF 0 THEN X = 1 ELSE", "40 PRINT \"C\"", "50 IF 1 THEN"], &["RUN"], 5),
     ];
     for (prog, typed, want) in counted {
         for (ww, tt) in [(false, false), (false, true)] {
@@ -2061,6 +2111,63 @@ pub fn c08_cases(rng: &mut Rng, tier: &str) -> (Vec<Case>, bool) {
                 ];
                 cases.push(case_from(w, checks, "input-vs-assignment".into(), true, text.replace('\n', " | ")));
             }
+        }
+    }
+    // an INPUT that asked but never stored (the store failed, or the host broke in at the prompt) is over: the NEXT request -
+    // typed at the prompt, or reached by a jump - is answered on its own terms
+    for abandon in ["10 N = 50\n20 INPUT A(N)\n30 PRINT \"unreached\"", "10 PRINT \"Q\"\n20 INPUT A\n30 PRINT \"unreached\"", "10 INPUT A$(1, 2, 3, 4, 5)\n20 PRINT 2", "10 GOSUB 50\n20 END\n50 FOR I = 1 TO 2 : INPUT A(I * 20) : NEXT I : RETURN"] {
+        for (next, reply, probe, want) in [("INPUT B", "8", "PRINT B", "8"), ("INPUT B$", "\"x y", "PRINT B$", "x y"), ("GOTO 900", "9", "PRINT \"-\"", "-"), ("INPUT A(2)", "4", "PRINT A(2)", "4")] {
+            let mut w = Walk::new(false, false);
+            for l in abandon.split('\n') {
+                w.start(l);
+            }
+            w.start("900 INPUT C : PRINT \"C=\"; C : END");
+            w.start("RUN");
+            let mut guard = 0;
+            while w.state() == "Running" && guard < 20 {
+                w.op("cont");
+                guard += 1;
+            }
+            w.op("take");
+            if abandon.contains("INPUT A\n") {
+                w.op("break");
+            } else {
+                w.reply("7");
+                let mut guard = 0;
+                while w.state() == "Running" && guard < 20 {
+                    w.op("cont");
+                    guard += 1;
+                }
+            }
+            w.op("take");
+            w.op("snap");
+            // the next request
+            w.start(next);
+            let mut guard = 0;
+            while w.state() == "Running" && guard < 20 {
+                w.op("cont");
+                guard += 1;
+            }
+            let asked = w.last();
+            w.op("take");
+            w.reply(reply);
+            let mut takes = vec![];
+            let mut guard = 0;
+            while w.state() == "Running" && guard < 20 {
+                w.op("cont");
+                w.op("take");
+                takes.push(w.last());
+                guard += 1;
+            }
+            let idle = w.last();
+            w.start(probe);
+            w.op("take");
+            let pt = w.last();
+            let mut checks = vec![format!("reply-is {} AwaitingInput", asked), format!("reply-is {} Idle", idle), format!("take-is {} P:{}", pt, crate::imp::hex(&format!("{}\n", want)))];
+            if next == "GOTO 900" {
+                checks.push(format!("some-take-is {} P:{}", takes.iter().map(|t| t.to_string()).collect::<Vec<_>>().join(","), crate::imp::hex("C=9\n")));
+            }
+            cases.push(case_from(w, checks, "input-after-abandoned-input".into(), true, format!("{} || then {} <- {:?} || {}", abandon.replace('\n', " | "), next, reply, probe)));
         }
     }
     // what is stored is the first item of the reply AS HANDED OVER: an item that opens a quote and never closes it runs to the
